@@ -126,7 +126,7 @@ def run_check(prop, tier, seed, replay=None):
     # 3. translator validation against Amaranth's simulator
     impl_traces = {}
     for t in targets:
-        trs = prop.traces(t, rng, tier)
+        trs = [t.add_ticks(tr) for tr in prop.traces(t, rng, tier)]
         info, outs = core.validate_translation(t, trs, bdir)
         info["target"] = t.name; info["cells"] = t.ncells; info["gen_sha"] = t.gen_sha
         cov["translator_validation"].append(info)
